@@ -174,10 +174,12 @@ except ImportError:
     PATHS = {}
 # remaining path classes of the branching functions (obligations in lean/Cgm/Trace/<pid>More.lean) and the operations
 # that had a model function and a driver op but no kernel (lean/Cgm/Trace/<pid>Rest.lean)
-# the operations added for C18 / C16 (tracetab_ops.py; lean/Cgm/Trace/<pid>Ops*.lean)
+# the operations added for C18 / C16 (tracetab_ops.py; lean/Cgm/Trace/<pid>Ops*.lean) and the operand forms / fold lengths
+# added for C17 (tracetab_ops2.py; lean/Cgm/Trace/C17Ops*.lean); C18 for Euler / Decomposed / Basis2 / Basis3 (tracetab_ops3.py)
 MORE, REST, OPS = {}, {}, {}
 for _mod, _name, _dst in (("tracetab_more", "MORE", MORE), ("tracetab_more2", "MORE", MORE), ("tracetab_rest", "REST", REST),
-                          ("tracetab_ops", "OPS", OPS)):
+                          ("tracetab_ops", "OPS", OPS), ("tracetab_ops2", "OPS2", OPS),
+                          ("tracetab_ops3", "OPS3", OPS)):
     try:
         _m = __import__("cgv." + _mod, fromlist=[_name])
         for _k, _v in getattr(_m, _name).items():
